@@ -49,15 +49,30 @@ package dispatch
 //@   modifies d.done
 //@   ensures result == d.done && (old(d.done) ==> d.done)
 
+// What the scheduler observes (ghost obsRead / obsWrite, used by the preemption tick's rule) is the
+// access watcher's record: the time of the last successfully closed piece reader / the last
+// successfully written piece (torrentAccessWatcher contracts above), not anything derived from the
+// set of currently connected peers.
+//@ func torrentAccessWatcher.getLastReadTime
+//@   requires w != nil
+//@   ensures result == w.lastRead
+//@ func torrentAccessWatcher.getLastWriteTime
+//@   requires w != nil
+//@   ensures result == w.lastWrite
+
 //@ func Dispatcher.LastReadTime
-//@   trusted
+//@   requires d != nil && d.torrent != nil
 //@   modifies d.obsRead
+//@   ghost_set d.obsRead = result
 //@   ensures result == d.obsRead
+//@   ensures from_watcher: result == d.torrent.lastRead
 
 //@ func Dispatcher.LastWriteTime
-//@   trusted
+//@   requires d != nil && d.torrent != nil
 //@   modifies d.obsWrite
+//@   ghost_set d.obsWrite = result
 //@   ensures result == d.obsWrite
+//@   ensures from_watcher: result == d.torrent.lastWrite
 
 // ---- remote input (property C14) ------------------------------------------------------------------
 //
